@@ -216,6 +216,11 @@ class CallMixin:
                     pass
         if recv.k == 'list' and name == 'append':
             return [(NONE, st)]
+        if recv.is_const and isinstance(recv.val, dict) and name in ('items', 'keys', 'values') and not args:
+            try:
+                return [(C(list(getattr(recv.val, name)())), st)]
+            except Exception:
+                pass
         if recv.k == 'super':
             cls, bases = recv.a
             for b in bases:
